@@ -76,4 +76,32 @@ PROPS = {
              "bound": "calculated range = raw range of each of the 11 data types; all finite declared limits inside / clearly outside (10x tolerance)", "timeout": 240},
         ],
     },
+    "C15": {
+        "files": ["a2lfile/src/sort.rs", "a2lfile/src/itemlist.rs"],
+        "trusted": T_STD,
+        "assumptions": ["inductive pre-state: placed elements carry arbitrary distinct non-zero u32 position ids, new elements carry 0 (every u32 is reachable as uid0*2^k)",
+                        "writer order is modelled as 'ascending uid, uid 0 last' (Writer::sort_function's primary key)",
+                        "known finding D7 restricts the main harness to ids < 2^31 while it is listed; the twin harness demonstrates the overflow"],
+        "jobs": [
+            {"engine": "E2", "module": "sort", "harness": "h_sort_new_objectlist", "functions": ["sort::sort_objectlist_new", "sort::cmp_named_a2lobject", "itemlist::ItemList::sort_by"],
+             "bound": "one call on a UNIT list of <= 3 items; uids any u32 (distinct, non-zero for placed), lines < 4, names over {a,b,c}", "timeout": 240, "must_cover": ["three items"]},
+            {"engine": "E2", "module": "sort", "harness": "h_sort_new_objectlist_known_d7", "functions": ["sort::sort_objectlist_new"], "known": "D7",
+             "bound": "one placed element with uid >= 2^31", "timeout": 120},
+            {"engine": "E2", "module": "sort", "harness": "h_sort_new_two_kinds", "functions": ["sort::sort_new_items", "sort::sort_objectlist_new", "sort::sort_optional_item"],
+             "bound": "one call of sort_new_items on a file with 1 module: 2 placed + 1 new UNIT, 1 placed + 1 new COMPU_METHOD, arbitrary distinct ids < 2^31", "timeout": 240},
+            {"engine": "E2", "module": "sort", "harness": "h_sort_new_optional_items", "functions": ["sort::sort_new_items", "sort::sort_optional_item"],
+             "bound": "MOD_COMMON / MOD_PAR present or not with arbitrary ids < 2^31", "timeout": 120},
+        ],
+    },
+    "C14": {
+        "files": ["a2lfile/src/sort.rs", "a2lfile/src/itemlist.rs"],
+        "trusted": T_STD,
+        "assumptions": ["textual output and reload after sort() are outside the claim (ordering kernel only)"],
+        "jobs": [
+            {"engine": "E2", "module": "sort", "harness": "h_sort_full_objectlist", "functions": ["sort::sort_objectlist_full", "itemlist::ItemList::sort_by"],
+             "bound": "UNIT list of <= 3 items, symbolic distinct names over {a,b,c,d}, arbitrary previous uids/lines, any start uid", "timeout": 240},
+            {"engine": "E2", "module": "sort", "harness": "h_sort_module", "functions": ["sort::sort", "sort::sort_objectlist_full"],
+             "bound": "file with one module: 2 UNITs (symbolic name order), 1 COMPU_METHOD, optional MOD_PAR; sort applied twice", "timeout": 240},
+        ],
+    },
 }
